@@ -1304,3 +1304,5 @@ def _run(world: World, plan):
     return common.finish(world, nontrivial, sig)
 
 INFO['rule'] += ' Round-5 additions: a client kept busy by status announcements every 0.5..4 s (busy), combined with a block / friend change that is taken back between two polls of the settings.'
+
+INFO['rule'] += ' Round-6 additions: the application keeps the item objects of the shared directories (hold_items).'
